@@ -40,6 +40,9 @@ STATEMENTS = [
     'pass', 'assert checked_value', 'assert checked_value, "message"', '"a literal statement"', '42', 'None', 'b"bytes"', '...', '0',
     'if __debug__: debug_call()', 'if __debug__ is True: debug_call()', 'if __debug__ is not False: debug_call()', 'if __debug__ == True: debug_call()',
     'if not __debug__: debug_call()', 'if __debug__ is False: debug_call()', 'if __debug__ is not True: debug_call()', 'if __debug__ == False: debug_call()',
+    'if __debug__ is not None: debug_call()', 'if __debug__ is not other_flag: debug_call()', 'if __debug__ is None: debug_call()', 'if __debug__ is not 0: debug_call()',
+    'if __debug__ is other_flag: debug_call()', 'if __debug__ == 1: debug_call()', 'if __debug__ != False: debug_call()', 'if True is __debug__: debug_call()',
+    'if __debug__ is (not False): debug_call()', 'if not not __debug__: debug_call()', 'if __debug__ in (True,): debug_call()', 'if __debug__ is True is True: debug_call()',
     'if __debug__:\n    debug_call()\nelse:\n    release_call()', 'if other_flag is True: debug_call()', 'if other_flag == True: debug_call()',
     'if other_flag is not False:\n    debug_call()\nelse:\n    release_call()', 'if __debug__ and other_flag: debug_call()',
     'import os\nimport sys', 'import os\nimport sys as system\nimport os.path', 'from os import path\nfrom os import sep',
@@ -407,6 +410,7 @@ DASH_O_PROGRAMS = [
     ('debug-block-binds-also-bound-elsewhere', "x = 5\ndef f(n):\n    x = n\n    if __debug__:\n        x = x + 1\n        print('debugging', x)\n    return x\nprint(f(1))\n"),
     ('debug-block-no-binding', "def f(n):\n    if __debug__:\n        print('checking', n)\n    if __debug__ is not False:\n        print('again')\n    if __debug__ == True:\n        print('third')\n    return n\nprint(f(2))\n"),
     ('assert-effects', "def note(v):\n    print('evaluated', v)\n    return v\ndef f(n):\n    assert note(n), note('message')\n    assert note(0) or True\n    return n\nprint(f(3))\n"),
+    ('debug-other-comparands', "flag = None\ndef f():\n    if __debug__ is not None:\n        print('not none')\n    if __debug__ is not flag:\n        print('not flag')\n    if __debug__ == 0:\n        print('zero')\n    if __debug__ is not 1:\n        print('not one')\n    return 1\nprint(f())\n"),
     ('debug-else-kept', "def f():\n    if __debug__:\n        print('debug')\n    else:\n        print('optimized')\n    if not __debug__:\n        print('not debug')\n    return 1\nprint(f())\n"),
     ('debug-at-module-level', "if __debug__:\n    flag = 'debug'\n    print(flag)\ntry:\n    print(flag)\nexcept NameError:\n    print('unset')\n"),
     ('debug-in-class-and-loops', "class K:\n    if __debug__:\n        attr = 1\n    def m(self):\n        for i in range(2):\n            if __debug__:\n                print(i)\n            assert i < 5\n        else:\n            if __debug__:\n                print('done')\n        return getattr(self, 'attr', None)\nprint(K().m())\n"),
